@@ -33,16 +33,12 @@ pub mod ax3 { use super::*; use vstd::prelude::*;
 pub uninterp spec fn points_of<I>(i: I) -> Seq<PreResolvedCodePoint>;
 /// the byte codes an iterable of ByteCode yields, in order
 pub uninterp spec fn codes_of<I>(i: I) -> Seq<ByteCode>;
-pub broadcast axiom fn axiom_points_of_array1(a: [PreResolvedCodePoint; 1]) ensures #[trigger] points_of::<[PreResolvedCodePoint; 1]>(a) == a@;
-pub broadcast axiom fn axiom_points_of_array2(a: [PreResolvedCodePoint; 2]) ensures #[trigger] points_of::<[PreResolvedCodePoint; 2]>(a) == a@;
-pub broadcast axiom fn axiom_points_of_array3(a: [PreResolvedCodePoint; 3]) ensures #[trigger] points_of::<[PreResolvedCodePoint; 3]>(a) == a@;
+pub broadcast axiom fn axiom_points_of_array<const N: usize>(a: [PreResolvedCodePoint; N]) ensures #[trigger] points_of::<[PreResolvedCodePoint; N]>(a) == a@;
 pub broadcast axiom fn axiom_points_of_vec(v: Vec<PreResolvedCodePoint>) ensures #[trigger] points_of::<Vec<PreResolvedCodePoint>>(v) == v@;
 pub broadcast axiom fn axiom_points_of_prbc(b: PreResolvedByteCode) ensures #[trigger] points_of::<PreResolvedByteCode>(b) == b@;
 pub broadcast axiom fn axiom_points_of_codes1(a: [ByteCode; 1]) ensures #[trigger] points_of::<[ByteCode; 1]>(a) == seq![PreResolvedCodePoint::Bytecode(a@[0])];
 pub broadcast axiom fn axiom_points_of_codevec(v: Vec<ByteCode>) ensures #[trigger] points_of::<Vec<ByteCode>>(v) == v@.map_values(|b: ByteCode| PreResolvedCodePoint::Bytecode(b));
-pub broadcast axiom fn axiom_codes_of_array1(a: [ByteCode; 1]) ensures #[trigger] codes_of::<[ByteCode; 1]>(a) == a@;
-pub broadcast axiom fn axiom_codes_of_array2(a: [ByteCode; 2]) ensures #[trigger] codes_of::<[ByteCode; 2]>(a) == a@;
-pub broadcast axiom fn axiom_codes_of_array4(a: [ByteCode; 4]) ensures #[trigger] codes_of::<[ByteCode; 4]>(a) == a@;
+pub broadcast axiom fn axiom_codes_of_array<const N: usize>(a: [ByteCode; N]) ensures #[trigger] codes_of::<[ByteCode; N]>(a) == a@;
 }
 pub use ax3::{points_of, codes_of};
 #[verifier::external_body] pub struct SeqIter { _p: u8 }
@@ -52,6 +48,13 @@ impl SeqIter {
     /// stands for `.map(|b| b.into())` on an iterator of ByteCode (rewritten only where the source has exactly that text)
     #[verifier::external_body] pub fn map_into_points(self) -> (r: SeqIter) ensures points_of(r) == points_of(self) { unimplemented!() }
 }
+// formatting a token (or the tokenizer's answer) for an error message is assumed not to panic (derived Debug impls)
+pub mod axf { use super::*; use vstd::prelude::*;
+pub broadcast axiom fn axiom_debug_opt_tokenwithloc() ensures #[trigger] vstd::std_specs::fmt::fmt_req_all::<Option<TokenWithLoc>>();
+pub broadcast axiom fn axiom_debug_opt_token() ensures #[trigger] vstd::std_specs::fmt::fmt_req_all::<Option<Token>>();
+pub broadcast axiom fn axiom_debug_token() ensures #[trigger] vstd::std_specs::fmt::fmt_req_all::<Token>();
+pub broadcast axiom fn axiom_debug_tokenwithloc() ensures #[trigger] vstd::std_specs::fmt::fmt_req_all::<TokenWithLoc>();
+}
 pub trait FromYielded: Sized { spec fn pts(&self) -> Seq<PreResolvedCodePoint>; spec fn cds(&self) -> Seq<ByteCode>; }
 pub uninterp spec fn no_codes<T>(t: T) -> Seq<ByteCode>;
 pub uninterp spec fn no_points<T>(t: T) -> Seq<PreResolvedCodePoint>;
@@ -60,8 +63,8 @@ impl FromYielded for Vec<PreResolvedCodePoint> { open spec fn pts(&self) -> Seq<
 impl FromYielded for CelByteCode { open spec fn pts(&self) -> Seq<PreResolvedCodePoint> { no_points(*self) } open spec fn cds(&self) -> Seq<ByteCode> { self@ } }
 #[verifier::external_body] pub fn it_collect<I, R: FromYielded>(i: I) -> (r: R) ensures r.pts() == points_of(i), r.cds() == codes_of(i) { unimplemented!() }
 """
-ITER_BROADCAST = ('vw::lemma_prbc_view, ax3::axiom_points_of_array1, ax3::axiom_points_of_array2, ax3::axiom_points_of_array3, ax3::axiom_points_of_vec, ax3::axiom_points_of_prbc, '
-                  'ax3::axiom_points_of_codes1, ax3::axiom_points_of_codevec, ax3::axiom_codes_of_array1, ax3::axiom_codes_of_array2, ax3::axiom_codes_of_array4')
+ITER_BROADCAST = ('vw::lemma_prbc_view, axf::axiom_debug_opt_tokenwithloc, axf::axiom_debug_opt_token, axf::axiom_debug_token, axf::axiom_debug_tokenwithloc, ax3::axiom_points_of_array, ax3::axiom_points_of_vec, ax3::axiom_points_of_prbc, '
+                  'ax3::axiom_points_of_codes1, ax3::axiom_points_of_codevec, ax3::axiom_codes_of_array')
 MC = {'into_iter': 'it_into_iter', 'chain': 'it_chain', 'collect': 'it_collect'}
 MAP_INTO = ('.map(|b| b.into())', '.map_into_points()', 'R2m: `.map(|b| b.into())` over ByteCode items -> SeqIter::map_into_points (the conversion is part of points_of)')
 
@@ -135,7 +138,7 @@ def stubbed(d, keep=()):
         if k in keep:
             out[k] = a
             continue
-        out[k] = A(stub=True, ret=a.ret, requires=a.requires, ensures=a.ensures)
+        out[k] = A(stub=True, ret=a.ret, requires=a.requires, ensures=a.ensures, rewrites=[r for r in a.rewrites if r[0].startswith('mut self')])
     return out
 
 
